@@ -770,12 +770,24 @@ func ruleLifecycleErrorsPropagate(c *Ctx, rid string) {
 func ruleParserNumbersChecked(c *Ctx, rid string, scope []*ssa.Function) {
 	c.rule(rid, "A5.i in the parser: every strconv.Atoi/ParseInt/ParseUint call in the parser scope has its error tested, and its number is used only under the nil test of that error: a malformed length is a protocol error, never the number 0")
 	n := 0
+	sset := scopeSet(scope)
 	for _, f := range scope {
 		ord := 0
 		allInstrs(f, func(ins ssa.Instruction) {
 			call, ok := ins.(*ssa.Call)
-			if !ok || !nameIn(calleeName(call.Common()), "strconv.Atoi", "strconv.ParseInt", "strconv.ParseUint") {
+			if !ok {
 				return
+			}
+			if !nameIn(calleeName(call.Common()), "strconv.Atoi", "strconv.ParseInt", "strconv.ParseUint") {
+				// a helper of the parser that hands the decoded number on: (int, error)
+				cal := staticCallee(call.Common())
+				tup, isT := call.Type().(*types.Tuple)
+				if cal == nil || !sset[cal] || !isT || tup.Len() != 2 || !isErrorType(tup.At(1).Type()) {
+					return
+				}
+				if b, isB := tup.At(0).Type().Underlying().(*types.Basic); !isB || b.Info()&types.IsInteger == 0 {
+					return
+				}
 			}
 			n++
 			ord++
@@ -788,7 +800,7 @@ func ruleParserNumbersChecked(c *Ctx, rid string, scope []*ssa.Function) {
 		})
 	}
 	c.count("parser-strconv-calls", n)
-	c.floor("parser-strconv-calls", 2)
+	c.floor("parser-strconv-calls", 1)
 }
 
 // nullOnlyForNegative (written while reading the sweep's survivors around the length tests; the edit
@@ -799,6 +811,7 @@ func ruleParserNumbersChecked(c *Ctx, rid string, scope []*ssa.Function) {
 // has none.
 func nullOnlyForNegative(c *Ctx, rid string) {
 	scope := c.P.parserScope()
+	nsset := scopeSet(scope)
 	n := 0
 	for _, f := range scope {
 		ord := 0
@@ -817,7 +830,21 @@ func nullOnlyForNegative(c *Ctx, rid string) {
 					return false
 				}
 				call, ok := ex.Tuple.(*ssa.Call)
-				return ok && nameIn(calleeName(call.Common()), "strconv.Atoi", "strconv.ParseInt", "strconv.ParseUint")
+				if !ok {
+					return false
+				}
+				if nameIn(calleeName(call.Common()), "strconv.Atoi", "strconv.ParseInt", "strconv.ParseUint") {
+					return true
+				}
+				// the number handed on by a helper of the parser: (int, error)
+				if cal := staticCallee(call.Common()); cal != nil && nsset[cal] {
+					if tup, isT := call.Type().(*types.Tuple); isT && tup.Len() == 2 && isErrorType(tup.At(1).Type()) {
+						if b, isB := tup.At(0).Type().Underlying().(*types.Basic); isB && b.Info()&types.IsInteger != 0 {
+							return true
+						}
+					}
+				}
+				return false
 			}
 			var k int64
 			numLeft := false
@@ -864,7 +891,11 @@ func nullOnlyForNegative(c *Ctx, rid string) {
 					succ = iff.Block().Succs[1]
 				}
 				if ret, isRet := succ.Instrs[len(succ.Instrs)-1].(*ssa.Return); isRet && len(ret.Results) == 2 && isNilConst(retOperand(ret, 1)) && !isNilConst(retOperand(ret, 0)) {
-					bad = true
+					// a value (message, array, bytes) is returned, not a number handed to the caller
+					switch ret.Results[0].Type().Underlying().(type) {
+					case *types.Pointer, *types.Slice, *types.Interface:
+						bad = true
+					}
 				}
 			}
 			c.check(!bad, rid, key, c.P.instrPos(iff), "0 and -1 are told apart before a value is returned without reading a body", "a declared length of 0 takes the same way as -1 to a success return that reads no body: the empty value becomes the null one and its CRLF stays in the stream as the start of the next value")
